@@ -429,6 +429,12 @@ def clause_f(ctx, P):
 
 
 def run(ctx, P):
+    from . import c10, f4
+    # the cache decides 'same TXT record' byte-exactly (a TXT that differs in letter case only is a new record), and the
+    # TXT record of a renamed service goes out under the name the SRV/PTR point to
+    c10.matches_coverage(ctx, P, "C16g", types=("DnsTxt",))
+    n = f4.check_rename_taint(ctx, P, "C16h", only=lambda s: s.kind == "TXT")
+    ctx.floor("C16h.F4.rename-args", n, 2, "TXT record constructors with a renamable name")
     clause_f(ctx, P)
     clause_a(ctx, P)
     clause_b(ctx, P)
